@@ -99,3 +99,14 @@ Example C06_ex_close_window :
   map t_outs (firstn 1 (ths s2)) = [[ErrClosed]] /\
   lin_check (init [[OFirst]; [OClose]] []) [1; 0] = true.
 Proof. vm_compute. repeat split; reflexivity. Qed.
+
+From RW Require Gen.Source Conc.HookTie.
+
+(* translator tie: the schedule points that cut the code into the model's atomic steps are
+   the verifPoint call sites of /repo's current source (regenerated into Gen/Source.v on
+   every run), each in the function the model attributes it to *)
+Theorem C06_schedule_points_tie :
+  RW.Gen.Source.hook_points =
+  List.map (fun p => (RW.Conc.HookTie.s2n (fst p), RW.Conc.HookTie.s2n (snd p))) RW.Conc.HookTie.model_points.
+Proof. exact RW.Conc.HookTie.hook_points_tie. Qed.
+Print Assumptions C06_schedule_points_tie.
